@@ -155,3 +155,13 @@ plan("C15", "c15.py", "generator bodies x driver contexts per resumption x send/
      "CTX[me] after a resumption is what the driver left.",
      "Trusted: generator protocol and Context.run / copy_context axioms, the rely on the driver (it cannot reach the private Context object), "
      "debug mode off, Twisted's inlineCallbacks (absent: composition with it is exercised only through the stub in the driver).")
+
+plan("C19", "c19.py", "gate-scheduled cycles of offers / writer steps / stop over one ThreadedWriter, failure masks, repeated cycles (Twisted stub), on the real code",
+     "Proof under the FIFO-queue axioms: __call__ only enqueues (no destination call on the caller's thread); _reader's loop invariant over the "
+     "ghost enqueue/dequeue histories: everything dequeued so far was passed to the wrapped destination exactly once, in dequeue = enqueue "
+     "order, whether or not those calls raised, and the loop exits only after dequeuing the stop marker; startService starts exactly one thread "
+     "targeting _reader and then registers the writer; stopService unregisters, then enqueues the stop marker behind everything pending, then "
+     "defers the join. A syntactic side check shows the destination is invoked only in _reader and _reader only as that thread's target.",
+     "Trusted: queue.SimpleQueue FIFO axioms with the rely `the enqueue history only grows`, threading.Thread, Twisted Service / "
+     "deferToThreadPool (absent here: stub for replay), Dest interface model (Exception subclasses), encoding assumptions. "
+     "Real interleavings are explored by the bounded driver only.", side_checks=["logwriter_check.py"])
